@@ -106,9 +106,12 @@ def run_property(prop, tier, seed, jobs, wd, only=None, keep_logs=None, t0=None)
     # 2. the job list
     jobsl = []
     for cfg, pats in suite:
-        for n in resolve(pats, built[cfg]):
+        avail = {n: None for n in runner.source_harnesses(suites.CONFIGS[cfg]["crate"])}
+        for n in resolve(pats, avail):
             if only and n not in only.split(","):
                 continue
+            if n not in built[cfg]:
+                raise runner.Inconclusive("harness %r was not produced by the %s build (feature-gated?)" % (n, cfg))
             jobsl.append((cfg, n))
     if not jobsl:
         raise runner.Inconclusive("empty suite")
